@@ -207,28 +207,47 @@ def eval_system(case):
     return Result(fail, nontrivial, classes, sample=sample)
 
 
+def _one_graph(n, adj):
+    """None, or Fail for one graph"""
+    from vf import totality as TT
+    r = TT.run_call(lambda: _fpm([list(a) for a in adj]), (), watchdog=30)
+    if r[0] == "hang":
+        return Fail("matching:no_result_within_30s", n=n, adj=adj)
+    if r[0] == "exc":
+        return Fail("matching:" + r[1], n=n, adj=adj, error=r[2])
+    m = r[1]
+    exists = K.has_perfect_matching(n, adj)
+    if m is None:
+        return Fail("matching:false_none", n=n, adj=adj) if exists else None
+    if not K.is_perfect_matching(n, adj, list(m)):
+        return Fail("kek:non-matching", n=n, adj=adj, returned=list(m), matching_exists=exists)
+    return None
+
+
 def eval_graph(case):
     if _fpm is None:
         return Result(skipped="matching routine not importable")
+    if case["kind"] == "graph_batch":
+        # many graphs per case: the routine-level defects seen so far show up once in a few thousand graphs
+        n_nb = 0
+        for g in case["graphs"]:
+            n = len(g)
+            f = _one_graph(n, g)
+            if f is not None:
+                return Result(f, True, ("graph_batch",), extra=len(case["graphs"]) - 1)
+            if not _bipartite(set(range(n)), {i: set(a) for i, a in enumerate(g)}):
+                n_nb += 1
+        return Result(None, n_nb > 0, ("graph_batch", "family_" + case.get("family", "?")), extra=len(case["graphs"]) - 1,
+                      sample=dict(family=case.get("family"), graphs=len(case["graphs"]), first=case["graphs"][0] if case["graphs"] else None))
     n = case["n"]
     adj = [list(a) for a in case["adj"]]
-    r = call(_fpm, [list(a) for a in adj])
-    exists = K.has_perfect_matching(n, adj)
     nb = not _bipartite(set(range(n)), {i: set(a) for i, a in enumerate(adj)})
-    classes = ["graph", "graph_non_bipartite" if nb else "graph_bipartite", "pm_exists" if exists else "no_pm"]
-    if r[0] != "ok":
-        return Result(Fail("matching:" + r[1], n=n, adj=adj), nb, classes)
-    m = r[1]
-    if m is None:
-        f = Fail("matching:false_none", n=n, adj=adj) if exists else None
-        return Result(f, nb, classes)
-    if not K.is_perfect_matching(n, adj, list(m)):
-        return Result(Fail("kek:non-matching", n=n, adj=adj, returned=list(m), matching_exists=exists), nb, classes)
-    return Result(None, nb, classes, sample=dict(n=n, adj=adj))
+    classes = ["graph", "graph_non_bipartite" if nb else "graph_bipartite"]
+    return Result(_one_graph(n, adj), nb, classes, sample=dict(n=n, adj=adj))
 
 
 def evaluate(case):
-    if case["kind"] == "graph":
+    if case["kind"] in ("graph", "graph_batch"):
         return eval_graph(case)
     return eval_system(case)
 
@@ -284,17 +303,39 @@ def gen_c60_orders(ch):
     return dict(kind="system", topology="cage_orders", mol=mol_json(m), spellings=sps)
 
 
+def _one_random_graph(ch, family):
+    if family == "cubic":
+        n = 2 * ch.int(4, 30)
+        g = GA.random_cubic(ch, n)
+        adj = [sorted(g[i]) for i in range(n)]
+    elif family == "cage_relabelled":
+        g0 = GA.cage(ch.weighted([(6, "C60"), (1, "C20"), (1, "trunc_octa"), (1, "petersen"), (1, "prism5"), (1, "moebius5")]))
+        n = len(g0)
+        perm = ch.shuffle(list(range(n)))
+        adj = [None] * n
+        for a, bs in g0.items():
+            adj[perm[a]] = [perm[b] for b in sorted(bs)]
+    else:
+        n = ch.pick([8, 10, 12, 14, 16, 20, 24, 30, 40])
+        adj = [[] for _ in range(n)]
+        for _ in range(ch.int(n // 2, int(1.6 * n))):
+            a, b = ch.below(n), ch.below(n)
+            if a == b or b in adj[a] or len(adj[a]) >= 3 or len(adj[b]) >= 3:
+                continue
+            adj[a].append(b)
+            adj[b].append(a)
+    return [ch.shuffle(a) for a in adj]
+
+
 def gen_graph(ch):
-    n = ch.pick([8, 10, 12, 14, 16, 20, 24, 30, 40])
-    adj = [[] for _ in range(n)]
-    for _ in range(ch.int(n // 2, int(1.6 * n))):
-        a, b = ch.below(n), ch.below(n)
-        if a == b or b in adj[a] or len(adj[a]) >= 3 or len(adj[b]) >= 3:
-            continue
-        adj[a].append(b)
-        adj[b].append(a)
-    adj = [ch.shuffle(a) for a in adj]
-    return dict(kind="graph", n=n, adj=adj)
+    adj = _one_random_graph(ch, "subcubic")
+    return dict(kind="graph", n=len(adj), adj=adj)
+
+
+def gen_graph_batch(ch):
+    family = ch.weighted([(4, "cubic"), (4, "cage_relabelled"), (2, "subcubic")])
+    k = 24
+    return dict(kind="graph_batch", family=family, graphs=[_one_random_graph(ch, family) for _ in range(k)])
 
 
 def shard(ctx):
@@ -326,4 +367,5 @@ def shard(ctx):
     ctx.drive("standard", lambda ch: gen_system_case(ch, extended=False), ctx.n(500, 12000), max_bytes=1500)
     ctx.drive("extended", lambda ch: gen_system_case(ch, extended=True), ctx.n(300, 8000), max_bytes=1500)
     ctx.drive("cage_orders", gen_c60_orders, ctx.n(40, 2500), max_bytes=1200)
-    ctx.drive("graphs", gen_graph, ctx.n(3000, 200000), max_bytes=300)
+    ctx.drive("graphs", gen_graph, ctx.n(1000, 20000), max_bytes=300)
+    ctx.drive("graph_batches", gen_graph_batch, ctx.n(500, 10000), max_bytes=6000)
